@@ -579,7 +579,18 @@ func (sc *SubCache[EntityT, ExcerptT, CacheT]) MergeAll(remote string) <-chan en
 				sc.excerpts[result.Id] = sc.makeExcerpt(cached)
 				// might as well keep them in memory
 				sc.cached[result.Id] = cached
+				sc.lru.Add(result.Id)
 				sc.mu.Unlock()
+
+				// keep the search index in sync as well, or the new and updated entities can't
+				// be found (or are found through their old content) until the cache is rebuilt
+				err = sc.indexOne(cached)
+				if err != nil {
+					out <- entity.NewMergeError(err, result.Id)
+					return
+				}
+
+				sc.evictIfNeeded()
 			}
 		}
 
@@ -592,6 +603,14 @@ func (sc *SubCache[EntityT, ExcerptT, CacheT]) MergeAll(remote string) <-chan en
 
 	return out
 
+}
+
+func (sc *SubCache[EntityT, ExcerptT, CacheT]) indexOne(cached CacheT) error {
+	index, err := sc.repo.GetIndex(sc.namespace)
+	if err != nil {
+		return err
+	}
+	return index.IndexOne(cached.Id().String(), sc.makeIndexData(cached))
 }
 
 func (sc *SubCache[EntityT, ExcerptT, CacheT]) GetNamespace() string {
